@@ -128,6 +128,9 @@ class Check(object):
         if new:
             code = 1
             outdir = os.path.join(VERIF, 'out')
+            if os.environ.get('HL7LINT_NOEVIDENCE') == '1':   # self-test runs on scratch copies
+                import tempfile
+                outdir = tempfile.mkdtemp(prefix='hl7lint-out-')
             if not os.path.isdir(outdir):
                 os.makedirs(outdir)
             replay = os.path.join(outdir, '%s.violation.json' % self.pid)
@@ -146,6 +149,8 @@ class Check(object):
         return code
 
     def write_evidence(self, n_new, n_listed, stale, error=None):
+        if os.environ.get('HL7LINT_NOEVIDENCE') == '1':
+            return
         evdir = os.path.join(VERIF, 'evidence')
         if not os.path.isdir(evdir):
             os.makedirs(evdir)
